@@ -865,6 +865,8 @@ func (a *act) sliceOp(in *ssa.Slice, guard string, st *State) Val {
 		}
 		t := fmt.Sprintf("(mk-slice (sbase %s) (+ (soff %s) %s) (- %s %s))", x.T, x.T, lo, hi, lo)
 		v := Val{T: a.bind(in, t, SSlice), S: SSlice, GT: in.Type()}
+		// index translation between a sub-slice and its parent (creates the parent index term for E-matching)
+		fx.ctx.Assert(fmt.Sprintf("(forall ((i Int)) (! (= (sidx %s i) (sidx %s (+ %s i))) :pattern ((sidx %s i))))", v.T, x.T, lo, v.T))
 		return v
 	case *types.Pointer:
 		arr := xt.Elem().Underlying().(*types.Array)
